@@ -10,6 +10,7 @@ import (
 	"os"
 	"path/filepath"
 	"runtime"
+	"runtime/pprof"
 	"sort"
 	"strings"
 	"sync/atomic"
@@ -67,6 +68,9 @@ type Ctx struct {
 	maxViol   int
 	sampleCnt int64
 	idx       int64
+	ticks     int64
+	shrinks   map[string]int
+	expired   bool
 }
 
 const maxViolPerWorker = 40
@@ -182,9 +186,19 @@ func ReadTrace(path string) string {
 	return string(b[8 : 8+n])
 }
 
+// Tick is called once per executed case; it checks the deadline every 512 calls.
+func (c *Ctx) Tick() bool {
+	c.ticks++
+	if c.ticks&511 == 0 {
+		return c.Expired()
+	}
+	return !c.res.Exhaustive && c.expired
+}
+
 func (c *Ctx) Expired() bool {
 	if time.Now().After(c.Deadline) {
-		if c.res.Exhaustive {
+		if !c.expired {
+			c.expired = true
 			c.res.Exhaustive = false
 			c.res.Caps = append(c.res.Caps, "deadline")
 		}
@@ -211,6 +225,25 @@ func (c *Ctx) Violate(v Violation) {
 	}
 	c.sigs[v.Sig] = true
 	c.res.Violations = append(c.res.Violations, v)
+}
+
+// ShrinkOK rations shrinking (which costs dozens of executions): always for the first 25 violations of
+// a failure kind, and up to 400 per worker; beyond that a violating case is only counted.
+func (c *Ctx) ShrinkOK(kind string) bool {
+	if c.Saturated() {
+		c.res.MoreViol++
+		return false
+	}
+	if c.shrinks == nil {
+		c.shrinks = map[string]int{}
+	}
+	c.shrinks[kind]++
+	c.shrinks[""]++
+	if c.shrinks[kind] <= 25 || c.shrinks[""] <= 400 {
+		return true
+	}
+	c.res.MoreViol++
+	return false
 }
 
 // SeenSig lets a property skip shrinking when it cannot report more anyway.
@@ -248,6 +281,11 @@ func Register(p *PropSpec) { Registry[p.ID] = p }
 // RunWorker executes one shard in this process and prints the Result as JSON on stdout.
 func RunWorker(p *PropSpec, tier string, seed int64, shard, n int, budget time.Duration) {
 	c := NewCtx(p.ID, tier, seed, shard, n, time.Now().Add(budget))
+	if pf := os.Getenv("XMC_PROF"); pf != "" {
+		f, _ := os.Create(pf)
+		pprof.StartCPUProfile(f)
+		defer pprof.StopCPUProfile()
+	}
 	done := make(chan struct{})
 	go watchdog(c, done)
 	func() {
